@@ -189,6 +189,7 @@ pub struct Runner<T: Flt> {
     pub trace: Trace,
     pub opts: RunOpts,
     pub cur_rel: f64,
+    ragged: u8,
     inbuf: Vec<Vec<T>>,
     outbuf: Vec<Vec<T>>,
 }
@@ -267,6 +268,7 @@ impl<T: Flt> Runner<T> {
             trace: Trace::default(),
             opts,
             cur_rel: 1.0,
+            ragged: 0,
             inbuf: vec![Vec::new(); cfg.channels],
             outbuf: vec![Vec::new(); cfg.channels],
         };
@@ -321,18 +323,41 @@ impl<T: Flt> Runner<T> {
         self.cfg.mask.clone()
     }
 
-    /// fill input buffers: `need` frames (+slack of NaN), first `valid` real then zeros
-    fn fill_input(&mut self, need: usize, valid: usize, slack: usize) {
+    /// Real frames channel `c` gets in this call: `valid` unless the op is ragged. `overlong` (partial paths only,
+    /// when the chunk is complete): frames beyond the needed size that the callee must ignore.
+    fn channel_frames(&self, c: usize, valid: usize, need: usize, partial: bool) -> (usize, usize) {
+        if self.ragged == 0 || valid == 0 {
+            return (valid, 0);
+        }
+        let h = crate::rng::mix(((self.ragged as u64) << 32) ^ (c + self.opts.sig_ch0) as u64);
+        match h % 4 {
+            1 => {
+                // shorter; active channels of a partial call keep at least one frame (C16 quantifies over 1..need)
+                // (the same count whatever the entry path, so that path twins see the same data)
+                let lo = 1;
+                let v = lo + ((h >> 8) as usize % (valid - lo + 1));
+                (v.min(valid), 0)
+            }
+            2 if partial && valid >= need => (valid, 1 + (h >> 8) as usize % 9),
+            _ => (valid, 0),
+        }
+    }
+
+    /// fill input buffers: full paths get `need` frames (first the channel's real frames, then zeros) plus a NaN
+    /// slack; partial paths get exactly the channel's real frames (plus a NaN overhang when over-long)
+    fn fill_input(&mut self, need: usize, valid: usize, slack: usize, partial: bool) {
         let cur = self.trace.cursor;
         for c in 0..self.cfg.channels {
+            let (vc, over) = self.channel_frames(c, valid, need, partial);
             let buf = &mut self.inbuf[c];
             buf.clear();
             if !self.cfg.active(c) && self.cfg.empty_inactive {
                 continue;
             }
-            buf.reserve(need + slack);
-            for k in 0..need {
-                if k < valid {
+            let len = if partial { vc } else { need };
+            buf.reserve(len + slack + over);
+            for k in 0..len {
+                if k < vc {
                     let mut x = self.signal.at(c + self.opts.sig_ch0, cur + k as u64);
                     if self.opts.round_f32 {
                         x = x as f32 as f64;
@@ -342,7 +367,7 @@ impl<T: Flt> Runner<T> {
                     buf.push(T::zero());
                 }
             }
-            for _ in 0..slack {
+            for _ in 0..(slack + over) {
                 buf.push(T::from64(f64::NAN));
             }
         }
@@ -401,7 +426,8 @@ impl<T: Flt> Runner<T> {
         };
         LAST_PANIC.with(|p| p.borrow_mut().clear());
         match op {
-            Op::Process { path, valid, slack_in, slack_out, slices } => {
+            Op::Process { path, valid, slack_in, slack_out, slices, ragged } => {
+                self.ragged = *ragged;
                 self.do_process(idx, &mut rec, *path, *valid, *slack_in as usize, *slack_out as usize, *slices);
             }
             Op::SetRatio { rel, ramp, relative_api } => {
@@ -560,9 +586,9 @@ impl<T: Flt> Runner<T> {
         let partial_none = path.is_partial() && valid == Some(0);
         // partial paths get exactly `nvalid` frames; the other paths get a zero padded full chunk
         if path.is_partial() {
-            self.fill_input(nvalid, nvalid, 0);
+            self.fill_input(need, nvalid, 0, true);
         } else {
-            self.fill_input(need, nvalid, slack_in);
+            self.fill_input(need, nvalid, slack_in, false);
         }
         let out_len = pre.out_next + slack_out;
         if !path.is_wrapper() {
@@ -735,7 +761,7 @@ impl<T: Flt> Runner<T> {
                     }
                 }
                 if let Some((c, k, v)) = nonfinite {
-                    if !matches!(self.signal, Signal::Wide { .. }) {
+                    if !matches!(self.signal, Signal::Wide { .. } | Signal::NanSparse { .. }) {
                         self.viol("C03", "non-finite-output", idx, format!("channel {} frame {} is {} (finite bounded input; NaN = read of the input slack beyond input_frames_next)", c, k, v));
                     }
                 }
@@ -759,7 +785,8 @@ impl<T: Flt> Runner<T> {
         let need = pre.in_next;
         let ch = self.cfg.channels;
         let mut mask = self.mask_arg();
-        self.fill_input(need, need, 0);
+        self.ragged = 0;
+        self.fill_input(need, need, 0, false);
         self.fill_output(pre.out_next);
         let mut inbuf = std::mem::take(&mut self.inbuf);
         let mut outbuf = std::mem::take(&mut self.outbuf);
